@@ -66,6 +66,8 @@ def targets(rnd, Abytes, B):
          'garbage-long': bytes(rnd.getrandbits(8) for _ in range(len(bB) + 300)), 'complete': bB,
          'truncated': bB[:rnd.randrange(len(hdr) // 2, len(bB))]}
     if Abytes: t['old-A'] = Abytes
+    # everything of B in place already, followed by leftover bytes (a longer earlier version, a run that died before its final truncation)
+    t['complete-plus-tail'] = bB + bytes(rnd.getrandbits(8) for _ in range(rnd.choice([1, 5000])))
     # partial B: some chunks in place, the others zero or garbage
     p = bytearray(hdr + bytes(len(body))); off = len(hdr)
     for c in B.chunks:
